@@ -202,7 +202,7 @@ func c01Agree(bus *EventBus, m *c01Model, T int) {
 	}
 }
 
-//verif:entry property=C01 tier=both bounds="registry step: n<=N plain registrations over T types x I handler identities (duplicates allowed), optional prior Unsubscribe, then ONE arbitrary operation out of Subscribe/Unsubscribe/Clear/ClearAll/Publish/PublishContext(cancelled)/counts, then probe publishes to every type" cover="op-subscribe,op-unsubscribe-ok,op-unsubscribe-missing,op-clear,op-clearall,op-publish,op-publish-cancelled" N_quick=2 N_thorough=3 T_quick=2 T_thorough=3 I_quick=2 I_thorough=3
+//verif:entry property=C01 tier=both bounds="registry step: n<=N plain registrations over T types x I handler identities (duplicates allowed), optional prior Unsubscribe, optionally one earlier publish to every type, then ONE arbitrary operation out of Subscribe/SubscribeContext/Unsubscribe/Clear/ClearAll/Publish/PublishContext(cancelled)/counts, then probe publishes to every type" cover="op-subscribe,op-unsubscribe-ok,op-unsubscribe-missing,op-clear,op-clearall,op-publish,op-publish-cancelled" N_quick=2 N_thorough=3 T_quick=2 T_thorough=3 I_quick=2 I_thorough=3
 func harnessC01RegistryStep() {
 	N, T, I := vParam("N", 2), vParam("T", 2), vParam("I", 2)
 	c01Log, c01Re = nil, nil
@@ -220,11 +220,26 @@ func harnessC01RegistryStep() {
 		err := c01Unsubscribe(bus, typ, id)
 		vAssert((err == nil) == m.unsubscribe(typ, id), "unsubscribe-error-iff-missing")
 	}
+	if vBool() {
+		// every type has been published to before the operation (whatever a publish leaves behind -
+		// snapshots, caches - is in place when the operation runs)
+		for t := 0; t < T; t++ {
+			c01TakeLog()
+			c01Publish(bus, context.Background(), t, 50+t)
+			vAssert(c01SameOrdered(c01TakeLog(), m.publish(t, 50+t, true)), "publish-delivers-exactly-registered-in-order")
+		}
+	}
 	typ, id := vPick(T), vPick(I)
 	switch vPick(6) {
 	case 0:
-		vAssert(c01Subscribe(bus, typ, id) == nil, "subscribe-ok")
-		m.subscribe(typ, &c01Reg{id: id})
+		if typ == 0 && vBool() {
+			// a context-aware handler is a registration like any other
+			vAssert(SubscribeContext(bus, func(ctx context.Context, e evA) { c01Rec(0, 7, e.N) }) == nil, "subscribe-ok")
+			m.subscribe(0, &c01Reg{id: 7})
+		} else {
+			vAssert(c01Subscribe(bus, typ, id) == nil, "subscribe-ok")
+			m.subscribe(typ, &c01Reg{id: id})
+		}
 		vCover("op-subscribe")
 	case 1:
 		err := c01Unsubscribe(bus, typ, id)
